@@ -208,9 +208,14 @@ def run(ctx: Ctx):
             # VTIMEZONEs are generated for ids the ACTIVE provider resolves (an id only the other provider knows is "unknown" here)
             present = {k: (rnd.choice([0, 0, 1, 2]) if ONLY.get(k, tzp.name) == tzp.name else 0) for k in ids}
             tzp.use(tzp.name)
-            cal = build(uses, present, rnd)
-            if rnd.random() < 0.5:
-                cal = Calendar.from_ical(cal.to_ical())
+            try:
+                cal = build(uses, present, rnd)
+                if rnd.random() < 0.5:
+                    cal = Calendar.from_ical(cal.to_ical())
+            except Exception as e:   # noqa: BLE001
+                # building the calendar already needs Timezone.from_tzid for the ids the provider resolves
+                ctx.fail("P:C18:add-missing-total", {"uses": uses, "present": present, "provider": tzp.name, "exc": type(e).__name__}, str(e)[:160], None)
+                continue
             seq = full_cycle(cal)
             ev.append({"uses": uses, "present": present, "seq": seq})
             meta.append({"uses": uses, "present": present, "provider": tzp.name})
